@@ -158,6 +158,12 @@ def c02_conjuncts(u_parent, b, sub=subsidy, max_sashimi=MAX_SASHIMI):
         reward = sum(v for v, _ in b.txs[0].outputs)
         if reward > sub(b.height) + fees:
             bad.append('reward exceeds subsidy plus fees')
+    # ledger-level statement: what is unspent after the block is worth at most what was unspent before plus the subsidy
+    if ok_fee and b.txs:
+        spent = set((h, i) for t in b.txs[1:] for (h, i, sg) in t.inputs)
+        created = sum(v for t in b.txs for v, _ in t.outputs)
+        if created - sum(u_parent[r][0] for r in spent) > sub(b.height):
+            bad.append('total of unspent outputs grows by more than the subsidy')
     return bad
 
 
